@@ -108,6 +108,10 @@ def rel_C11(f):
     return f[0] in ("np.y", "np.meta", "fn.out") or f[0] in ALWAYS
 
 
+def rel_C12(f):
+    return f[0] in ("np.repeat", "np.heap") or f[0] in ALWAYS
+
+
 def rel_C16(f):
     t = tag_of(f)
     if f[0] in ("fn.out", "fn.name_in", "fn.size_in", "fn.name_out", "fn.size_out", "fn.free", "fn.vs_plain"):
@@ -238,23 +242,23 @@ def trajectory_cases(base_cases, tier, rng):
 # per property: which cases, what to observe, which clauses decide
 PLANS = {
     "C01": dict(rel=rel_C01, want={"np": True, "fn": fns((0,))},
-                quick=dict(n=3, m=3, variants=2, generic=1, corners=12, rand=60),
-                thorough=dict(n=4, m=5, variants=3, generic=2, corners=12, rand=1500)),
+                quick=dict(n=3, m=3, variants=2, generic=1, corners=13, rand=60),
+                thorough=dict(n=4, m=5, variants=3, generic=2, corners=13, rand=1500)),
     "C02": dict(rel=rel_C02, traj=True, want={"np": True, "fn": fns((0,), more_out=(True,))},
-                quick=dict(n=3, m=3, variants=2, generic=1, corners=12, rand=60),
-                thorough=dict(n=4, m=5, variants=3, generic=2, corners=12, rand=1500)),
+                quick=dict(n=3, m=3, variants=2, generic=1, corners=13, rand=60),
+                thorough=dict(n=4, m=5, variants=3, generic=2, corners=13, rand=1500)),
     "C03": dict(rel=rel_C03, traj=True, want={"np": True, "fn": fns((0, 1, 2))},
-                quick=dict(n=3, m=3, variants=1, generic=1, corners=12, rand=40),
-                thorough=dict(n=4, m=5, variants=2, generic=2, corners=12, rand=1000)),
+                quick=dict(n=3, m=3, variants=1, generic=1, corners=13, rand=40),
+                thorough=dict(n=4, m=5, variants=2, generic=2, corners=13, rand=1000)),
     "C05": dict(rel=rel_C05, traj=True, want=lambda c: {"np": False, "fn": fns((0, 1, 2), more_out=(True,))
                                              + fns((0,), more_out=(True,), syms=("SX",), generic_calls=2,
                                                    params=[{"kind": "T", "el": "*"}, {"kind": "C", "el": "*"},
                                                            {"kind": "rho_crit", "el": "*"}])},
-                quick=dict(n=3, m=3, variants=1, generic=1, corners=12, rand=40),
-                thorough=dict(n=4, m=5, variants=2, generic=2, corners=12, rand=1000)),
+                quick=dict(n=3, m=3, variants=1, generic=1, corners=13, rand=40),
+                thorough=dict(n=4, m=5, variants=2, generic=2, corners=13, rand=1000)),
     "C07": dict(rel=rel_C07, want={"np": True, "np_own": True, "fn": fns((-1, 0, 1, 2, 3)) + fns((2,), more_out=(True,))},
-                quick=dict(n=3, m=3, variants=1, generic=1, corners=12, rand=40),
-                thorough=dict(n=4, m=5, variants=2, generic=1, corners=12, rand=600)),
+                quick=dict(n=3, m=3, variants=1, generic=1, corners=13, rand=40),
+                thorough=dict(n=4, m=5, variants=2, generic=1, corners=13, rand=600)),
     "C10": dict(rel=rel_C10, want={"np": True, "sens": True, "jac": ["SX", "MX"]},
                 quick=dict(n=3, m=3, variants=2, generic=1, corners=0, rand=40),
                 thorough=dict(n=4, m=5, variants=4, generic=1, corners=2, rand=600)),
@@ -264,7 +268,10 @@ PLANS = {
                 thorough=dict(n=4, m=5, variants=2, generic=1, corners=1, rand=400)),
     "C11": dict(rel=rel_C11, family="opts", want={"np": True, "np_plain": True, "fn": fns((0,)) + fns((2,), syms=("SX",))},
                 quick=dict(n=3, m=3, variants=1, generic=4, corners=4, rand=0),
-                thorough=dict(n=4, m=4, variants=2, generic=8, corners=12, rand=0)),
+                thorough=dict(n=4, m=4, variants=2, generic=8, corners=13, rand=0)),
+    "C12": dict(rel=rel_C12, want={"np": True, "pure": True, "fn": []},
+                quick=dict(n=3, m=3, variants=2, generic=1, corners=3, rand=60),
+                thorough=dict(n=4, m=5, variants=3, generic=2, corners=13, rand=1000)),
     "C14": dict(rel=rel_C14, derive=("perm", "scale", "dupnames"), want={"np": True, "fn": fns((0,)) + fns((1,), syms=("SX",))},
                 quick=dict(n=3, m=3, variants=1, generic=1, corners=1, rand=30),
                 thorough=dict(n=4, m=5, variants=2, generic=1, corners=2, rand=400, nderive=3)),
@@ -275,8 +282,8 @@ PLANS = {
                 quick=dict(n=3, m=3, variants=1, generic=1, corners=1, rand=30),
                 thorough=dict(n=4, m=5, variants=1, generic=1, corners=3, rand=300)),
     "C17": dict(rel=rel_C17, traj=True, want={"np": True, "fn": fns((0,), more_out=(True,))},
-                quick=dict(n=3, m=3, variants=2, generic=1, corners=12, rand=60),
-                thorough=dict(n=4, m=5, variants=3, generic=2, corners=12, rand=1500)),
+                quick=dict(n=3, m=3, variants=2, generic=1, corners=13, rand=60),
+                thorough=dict(n=4, m=5, variants=3, generic=2, corners=13, rand=1500)),
 }
 
 
